@@ -56,15 +56,18 @@ def parseLine (toks : List String) : Except String Elt := do
         if rest.length < row.nodePinnames.length then throw "too-few-nodes"
         else return ⟨name, typ, typ, rest.take row.nodePinnames.length, opts⟩
 
-/-- `@rot <angle> <cos> <sin>` groups after the spacing -/
-def parseRots : List String → Option RotTable
-  | [] => some []
+/-- `@rot <angle> <cos> <sin>` and `@draw <key>` groups after the spacing -/
+def parseRots : List String → Option (RotTable × List String)
+  | [] => some ([], [])
   | "@rot" :: a :: c :: s :: rest => do
     let a ← parseRat a
     let c ← parseRat c
     let s ← parseRat s
     let t ← parseRots rest
-    some ((a, c, s) :: t)
+    some ((a, c, s) :: t.1, t.2)
+  | "@draw" :: k :: rest => do
+    let t ← parseRots rest
+    some (t.1, k :: t.2)
   | _ => none
 
 def parseNetlist (toks : List String) : Except String Netlist := do
@@ -73,7 +76,7 @@ def parseNetlist (toks : List String) : Except String Netlist := do
     let some k := parseRat k | throw "bad-spacing"
     let some rots := parseRots rots | throw "bad-rotation-table"
     let elts ← (lines.filter (!·.isEmpty)).mapM parseLine
-    return ⟨k, elts, rots⟩
+    return ⟨k, elts, rots.1, rots.2⟩
   | _ => throw "bad-request"
 
 def parseLayout (toks : List String) : Option Layout :=
